@@ -511,7 +511,7 @@ def ascii_token(s):
 class C16(Prop):
     id = 'C16'
     props_file = 'Props/C16.v'
-    imports = ['Model.StaticPath', 'Model.Ranges', 'Model.StaticObs']
+    imports = ['Model.StaticPath', 'Model.Ranges', 'Model.FrontEnd', 'Model.StaticObs']
     quick_n = 1200
     thorough_n = 40000
     rule = ('request paths of up to 6 segments over hostile ("..", ".", "", %2e%2e, %252e%252e, ..%2f, backslash, %00, '
@@ -521,7 +521,8 @@ class C16(Prop):
             'from a byte-range grammar (closed, open, suffix, reversed, out of bounds, duplicate, non-numeric, other units, '
             'missing "=") against files of 0, 1, 10, 4096, 100000 bytes, through serve_file and get_ranges directly. '
             'non-trivial = path with a hostile segment or naming something outside the root; range header with a spec')
-    trusted_base = ['hand-written models Model/StaticPath.v (posixpath.join/normpath, Static._on_request) and Model/Ranges.v '
+    trusted_base = ['hand-written models Model/StaticPath.v (posixpath.join/normpath, Static._on_request), Model/FrontEnd.v '
+                    '(Request.__init__/URL.sanitize, redirect guard of HTTP._on_read) and Model/Ranges.v '
                     '(get_ranges, Range arm of serve_file) tied to the code by this correspondence run',
                     'python oracle in harness/c16.py (component walk for paths, RFC 7233 reader for ranges), the audit hook '
                     'observing open()/listdir()']
@@ -529,8 +530,10 @@ class C16(Prop):
                    'POSIX os.path; docroot absolute (Static.__init__ applies os.path.abspath)',
                    'Static.defaults are plain file names (no "/", not "." or ".."): configuration, not request data',
                    'stddev(xs) > 2.0 is modelled in exact arithmetic (float rounding could differ only for >= 5 ranges)',
-                   'the HTTP front end (URL.sanitize, redirect guard) is not modelled: behind it only the oracle and, for '
-                   'requests that reach the dispatcher, the dispatcher model are checked']
+                   'urlsplit of the request line and the real quote/unquote are oracles of the front-end model (tables of the '
+                   'real calls in K, universally quantified in the theorems)',
+                   'listing entries (names) are judged by the oracle only (no Coq model of the HTML); where the links of a '
+                   'listing point is not part of the property']
 
     def __init__(self):
         self.stash = {}
@@ -790,15 +793,6 @@ class C16(Prop):
                            if x != '..')
             if shown != names:
                 return 'listing shows %r, directory %s holds %r' % (shown, target, names)
-            # every link of the listing (entries and the '..' link), requested as it stands, stays inside the root
-            for href, text in re.findall(r'<a href="([^"]*)">([^<]*)</a>', obs['body'] or ''):
-                href = unescape(href)
-                out = resolve(root, None, href) is None or (
-                    c['mount'] is not None and href.startswith(c['mount']) and resolve(root, c['mount'], href) is None)
-                if out:
-                    tag = 'uplink: ' if (text == '..' and target == root) else ''
-                    return '%slisting of %s links to %r, which leaves the document root' % (tag, target, href)
-            self.stats['hrefs_checked'] = self.stats.get('hrefs_checked', 0) + 1
             return None
         return 'content served for %s, which does not exist' % target
 
@@ -859,12 +853,6 @@ class C16(Prop):
         elif fn[0] == 2:
             if not (isinstance(spec, list) and len(set(spec)) > 1):
                 return 'get_ranges(%r, %d) raised RangeUnsatisfiable' % (c['hdr'], size)
-        return None
-
-    def finding_class(self, c, obs, what):
-        # the '..' link of a listing of the document root itself, reached through a non-empty path
-        if what.startswith('uplink: ') and c['k'] == 'path' and c['listing']:
-            return 'C16-root-listing-uplink'
         return None
 
     def nontrivial(self, c, obs):
